@@ -769,6 +769,11 @@ def run(chk):
     chk.ob("C13.R8:metric-seq-flag", "the metric value extractor accepts one flat sequence and rejects nesting", metric_seq_flag)
     chk.ob("C13.R8:metric-points-kept", "a metric sample reaches its data point with its value, start time and time", metric_points_kept)
 
+    # every property reaches the sinks by enumeration: a props list that ends its own enumeration early (an absent #[emit::optional] value) loses
+    # every later property from the file record and the OTLP attributes (shared with C02)
+    from . import c02
+    c02.loop_exit_rule(chk, P, "C13.R2:loop-exits")
+    c02.no_truncating_adaptors_rule(chk, P, "C13.R2:no-truncating-adaptors")
     from . import anystream
     anystream.rules(chk, P, "C13.R7")
     anystream.values_balanced(chk, P)
